@@ -1,0 +1,46 @@
+use super::{BufferType, CursorKeysMode, SavedCtx, Terminal};
+use crate::charset::Charset;
+use crate::verif::{SavedCtxState, VerifState};
+
+fn saved_ctx_state(ctx: &SavedCtx) -> SavedCtxState {
+    SavedCtxState {
+        cursor_col: ctx.cursor_col,
+        cursor_row: ctx.cursor_row,
+        pen: ctx.pen,
+        origin_mode: ctx.origin_mode,
+        auto_wrap_mode: ctx.auto_wrap_mode,
+    }
+}
+
+impl Terminal {
+    pub(crate) fn verif_state(&self) -> VerifState {
+        VerifState {
+            cols: self.cols,
+            rows: self.rows,
+            alternate_active: self.active_buffer_type == BufferType::Alternate,
+            scrollback_limit: self.scrollback_limit,
+            buffer: self.buffer.verif_state(),
+            other_buffer: self.other_buffer.verif_state(),
+            other_lines: self.other_buffer.lines().to_vec(),
+            pending_wrap: self.pending_wrap,
+            pen: self.pen,
+            charsets_drawing: [
+                self.charsets[0] == Charset::Drawing,
+                self.charsets[1] == Charset::Drawing,
+            ],
+            active_charset: self.active_charset,
+            tabs: (&self.tabs).into_iter().copied().collect(),
+            insert_mode: self.insert_mode,
+            origin_mode: self.origin_mode,
+            auto_wrap_mode: self.auto_wrap_mode,
+            new_line_mode: self.new_line_mode,
+            cursor_keys_app_mode: self.cursor_keys_mode == CursorKeysMode::Application,
+            top_margin: self.top_margin,
+            bottom_margin: self.bottom_margin,
+            saved_ctx: saved_ctx_state(&self.saved_ctx),
+            other_saved_ctx: saved_ctx_state(&self.alternate_saved_ctx),
+            dirty_lines: self.dirty_lines.to_vec(),
+            parser: None,
+        }
+    }
+}
